@@ -16,10 +16,12 @@ Definition observable (closing : bool) (q : req) (r : resp) (order : list str) :
   end.
 
 (* hypotheses on the response record: what http.Transport delivers for a well-formed origin response *)
-Definition wf_resp (r : resp) (order : list str) : bool :=
+Definition wf_resp (q : req) (r : resp) (order : list str) : bool :=
   wf_go r && forallb is_token order &&
-  (negb (r_chunked r) || ((r_cl r =? -1)%Z && proto_at_least_11 (r_major r) (r_minor r))) &&
-  (negb (r_cl r =? 0)%Z || negb (nonempty (concat (reads_of r)))).
+  (* for responses that may have a body: chunked => length unknown and HTTP/1.1; declared empty => empty *)
+  (rfc_no_body (q_method q) (r_code r) ||
+   ((negb (r_chunked r) || ((r_cl r =? -1)%Z && proto_at_least_11 (r_major r) (r_minor r))) &&
+    (negb (r_cl r =? 0)%Z || negb (nonempty (concat (reads_of r)))))).
 
 (* ------------------------------------------------------------------ prepare keeps everything but Close, chunked, Connection *)
 Lemma reframe_inv q r :
@@ -149,7 +151,7 @@ Section Response.
 
   (* the framing a surviving / a closing connection gets *)
   Lemma go_framing closing q r order :
-    wf_resp r order = true ->
+    wf_resp q r order = true ->
     is_connect_ok q r = false -> rfc_no_body (q_method q) (r_code r) = false ->
     let r' := prepare closing q r in
     (r_close r' = false -> go_delimited (client11 q) (q_method q) r' = true) /\
@@ -157,7 +159,8 @@ Section Response.
   Proof.
     intros Hwf Hco Hnb. cbv zeta.
     destruct (prepare_inv closing q r) as (H1 & H2 & H3 & _ & H5 & _ & H7 & _ & _ & H10 & H11).
-    unfold wf_resp in Hwf. apply andb_true_iff in Hwf as [Hwf Hz]. apply andb_true_iff in Hwf as [Hwf Hch].
+    unfold wf_resp in Hwf. apply andb_true_iff in Hwf as [Hwf Hb]. rewrite Hnb in Hb. cbn [orb] in Hb.
+    apply andb_true_iff in Hb as [Hch Hz].
     apply andb_true_iff in Hwf as [Hwf _]. unfold wf_go in Hwf. apply andb_true_iff in Hwf as [_ Hge].
     apply Z.leb_le in Hge.
     assert (Hhead : str_eqb (q_method q) (b "HEAD") = false).
@@ -226,7 +229,7 @@ Section Response.
   (* the response is consumed exactly, whatever follows it on the connection, whenever the
      connection is kept (and for the CONNECT reply, after which the tunnel's bytes follow) *)
   Theorem roundtrip closing q r order rest :
-    wf_resp r order = true ->
+    wf_resp q r order = true ->
     conn_survives closing q r = true \/ is_connect_ok q r = true ->
     client_parse (client11 q) (q_method q) (resp_wire closing q r order ++ rest) =
     Some (observable closing q r order, rest).
@@ -243,7 +246,7 @@ Section Response.
       unfold writer_kind in *. rewrite Hcp in *.
       rewrite (Hho (q_method q) (r_code (prepare closing q r))), H3 in *.
       pose proof Hwf as Hwf0. unfold wf_resp in Hwf. apply andb_true_iff in Hwf as [Hwf _].
-      apply andb_true_iff in Hwf as [Hwf _]. apply andb_true_iff in Hwf as [Hgo Hord].
+      apply andb_true_iff in Hwf as [Hgo Hord].
       pose proof (wf_go_prepare closing q r Hgo) as Hgo'.
       destruct (rfc_no_body (q_method q) (r_code r)) eqn:Hnb.
       + apply ho_roundtrip; [exact Hshape | | exact Hord | rewrite H3; exact Hnb].
@@ -263,7 +266,7 @@ Section Response.
   (* when the proxy closes the connection after the response, the client, reading up to the
      end of the connection, gets exactly that response *)
   Theorem roundtrip_close closing q r order :
-    wf_resp r order = true -> write_ok closing q r = true ->
+    wf_resp q r order = true -> write_ok closing q r = true ->
     conn_survives closing q r = false -> is_connect_ok q r = false ->
     client_parse (client11 q) (q_method q) (resp_wire closing q r order) =
     Some (observable closing q r order, []).
@@ -275,7 +278,7 @@ Section Response.
     unfold writer_kind in *. rewrite Hcp, Hco in *.
     rewrite (Hho (q_method q) (r_code (prepare closing q r))), H3 in *.
     pose proof Hwf as Hwf0. unfold wf_resp in Hwf. apply andb_true_iff in Hwf as [Hwf _].
-    apply andb_true_iff in Hwf as [Hwf _]. apply andb_true_iff in Hwf as [Hgo Hord].
+    apply andb_true_iff in Hwf as [Hgo Hord].
     pose proof (wf_go_prepare closing q r Hgo) as Hgo'.
     destruct (rfc_no_body (q_method q) (r_code r)) eqn:Hnb.
     - rewrite <- (app_nil_r (concat (header_only_writes (prepare closing q r) order))).
@@ -313,7 +316,7 @@ Fixpoint served (xs : list exchange) : list exchange :=
 Definition conn_wire (xs : list exchange) : str := concat (map x_wire (served xs)).
 
 Definition x_ok (v11 : bool) (x : exchange) : Prop :=
-  wf_resp (x_resp x) (x_order x) = true /\ client11 (x_req x) = v11 /\
+  wf_resp (x_req x) (x_resp x) (x_order x) = true /\ client11 (x_req x) = v11 /\
   is_connect_ok (x_req x) (x_resp x) = false /\
   write_ok (x_closing x) (x_req x) (x_resp x) = true.
 
